@@ -24,6 +24,7 @@ import LibfiberVerif.Model.Barrier
 import LibfiberVerif.Model.RwLock
 import LibfiberVerif.Model.Sleep
 import LibfiberVerif.Model.Spin
+import LibfiberVerif.Model.SpinTso
 import LibfiberVerif.Model.WorkQueue
 import LibfiberVerif.Model.Wsd
 import LibfiberVerif.Model.Signal
@@ -51,6 +52,7 @@ def registry : List (String × (List String → IO UInt32)) := [
   ("RwLock", RwLock.drive), ("RwWord", RwLock.driveWord),
   ("Sleep", Sleep.drive),
   ("Spin", Spin.drive),
+  ("SpinTso", SpinTso.drive),
   ("WorkQueue", WorkQueue.drive),
   ("Wsd", Wsd.drive),
   ("Signal", Signal.drive), ("MultiSignal", MultiSignal.drive),
